@@ -99,6 +99,11 @@ pub fn binary(out: &mut dyn Write, a: u64, b: u64) {
     t4 -= y;
     let ok = t1 == x.or(y) && t2 == x.and(y) && t3 == x.xor(y) && t4 == x.diff(y);
     writeln!(out, "BB\t{a:x}\t{b:x}\t{}\t{}\t{}\t{}\t{}", h(x | y), h(x & y), h(x ^ y), h(x - y), ok as u8).unwrap();
+    // collecting boards is a UNION, also when the collected boards overlap or repeat
+    let c1: BitBoard = [x, y, x].into_iter().collect();
+    let c2: BitBoard = [y, y].into_iter().collect();
+    let c3: BitBoard = [x & y, x, y, x | y].into_iter().collect();
+    writeln!(out, "BG\t{a:x}\t{b:x}\t{}\t{}\t{}", h(c1), h(c2), h(c3)).unwrap();
 }
 
 pub fn nth(out: &mut dyn Write, a: u64, n: u64) {
@@ -164,7 +169,7 @@ pub fn replay(out: &mut dyn Write, f: &[&str]) {
     match f[0] {
         "BU" | "BP" | "BF" => unary(out, hx(f[1])),
         "BS" => square_ops(out, hx(f[1]), f[2].parse().unwrap()),
-        "BB" => binary(out, hx(f[1]), hx(f[2])),
+        "BB" | "BG" => binary(out, hx(f[1]), hx(f[2])),
         "BN" => nth(out, hx(f[1]), hx(f[2])),
         _ => ctor(out),
     }
